@@ -1,6 +1,7 @@
 import NucsModel.Registry
 import NucsModel.Engine.Search
 import NucsModel.Engine.OptTrace
+import NucsModel.Engine.GolombCons
 import NucsModel.MP
 import NucsModel.ProblemOps
 import NucsModel.Examples
@@ -135,6 +136,16 @@ def step (line : String) : String :=
       | .ok (st, s') =>
         if st == .inconsistent then s!"0 {showBools s'.trig} {showNats s'.stats.toList}"
         else s!"{st.code} {showBox s'.top.doms} {showBools s'.top.ne} {showBools s'.trig} {showNats s'.stats.toList}"
+  | ["golombprune", shr, vars, props, doms, ne, trig, decision] =>
+    match parseProps props with
+    | none => "bad-op"
+    | some raw =>
+      let P := initProblem (parseBox shr) (parseVars vars) raw
+      let s : State := { top := { doms := parseBox doms, ne := parseBools ne }, below := [],
+                         trig := parseBools trig, stats := {} }
+      match golombPrune P (parseNats decision) s with
+      | .error e => showEngErr e
+      | .ok (ok, s') => s!"{if ok then 1 else 0} {showBox s'.top.doms} {showBools s'.trig}"
   | ["heur", name, costs, doms, d] =>
     match DomHeur.ofName name with
     | none => "bad-op"
